@@ -43,6 +43,7 @@ type vcliC09Params struct {
 	Declared    []bool  `json:"content_length_declared"`
 	Chunks      []int   `json:"body_read_chunk"`
 	DrainAfter  int     `json:"scripted_steps"`
+	CliReadMax  uint32  `json:"client_max_read_frame_size"` // the client's own receive limit; says nothing about what it may send
 }
 
 func vcliC09Pick[T any](rng interface{ IntN(int) int }, xs ...T) T { return xs[rng.IntN(len(xs))] }
@@ -50,7 +51,7 @@ func vcliC09Pick[T any](rng interface{ IntN(int) int }, xs ...T) T { return xs[r
 func TestVerif_C09(t *testing.T) {
 	r := verifrt.Start(t, "C09")
 	defer r.Finish()
-	r.SetRule("one case = one ClientConn session: 1-8 concurrent uploads (0 B - 1 MiB, PRNG read chunking, declared/unknown length) against a scripted server with PRNG initial window {0,1,100,16383,16384,65535,65536,1MiB,random}, max frame {unset,16384,16385,65536,1MiB,2^24-1}, PRNG WINDOW_UPDATEs (1 byte, exactly-fill, frame-sized, huge; stream and connection), SETTINGS shrinking/growing INITIAL_WINDOW_SIZE and MAX_FRAME_SIZE mid-flight, early 200/403 responses, server resets. non-trivial = session in which a body was found blocked at quiescence on a non-positive window and later sent more DATA after the server extended it; distinct by hash of parameters + the sequence of (stream,len) of all DATA frames")
+	r.SetRule("one case = one ClientConn session: 1-8 concurrent uploads (0 B - 1 MiB, PRNG read chunking, declared/unknown length) against a scripted server with PRNG initial window {0,1,100,16383,16384,65535,65536,1MiB,random}, max frame {unset,16384,16385,65536,1MiB,2^24-1} (independently the client's own MaxReadFrameSize {default,16384,65536,1MiB,2^24-1}), PRNG WINDOW_UPDATEs (1 byte, exactly-fill, frame-sized, huge; stream and connection), SETTINGS shrinking/growing INITIAL_WINDOW_SIZE and MAX_FRAME_SIZE mid-flight, early 200/403 responses, server resets. non-trivial = session in which a body was found blocked at quiescence on a non-positive window and later sent more DATA after the server extended it; distinct by hash of parameters + the sequence of (stream,len) of all DATA frames")
 	r.Assume("independent frame reader h2ref; shadow windows follow RFC 9113 6.9/6.9.2; SETTINGS bind at the client's ACK (6.5.3), before the ACK the more permissive of old/new is allowed")
 	r.Assume("request-to-stream mapping uses the repository's hpack decoder on the request header blocks (bookkeeping only)")
 	fpMissing := strings.Contains(os.Getenv("VERIF_FAILPOINT_MISSING"), "transport.afterAwaitFlow")
@@ -124,11 +125,12 @@ func vcliC09Session(r *verifrt.R, c *verifrt.Case, fpMissing bool) {
 		p.Chunks = append(p.Chunks, ch)
 	}
 	p.DrainAfter = 20 + rng.IntN(150)
+	p.CliReadMax = vcliC09Pick[uint32](rng, 0, 0, 16384, 65536, 1<<20, 1<<24-1)
 	c.Describe(p)
 
 	// StrictMaxConcurrentStreams: a request beyond the limit waits for a slot on this connection
 	// (without it RoundTrip on a ClientConn at its limit fails at once with "not usable")
-	tr := &Transport{StrictMaxConcurrentStreams: p.MaxStreams != 0}
+	tr := &Transport{StrictMaxConcurrentStreams: p.MaxStreams != 0, MaxReadFrameSize: p.CliReadMax}
 	s := vcliNewSession(r, c, tr)
 	s.CheckFlow = true
 	hook := s.Delay.Delay
